@@ -127,6 +127,29 @@ def havoc_result(loc, names, values):
 def _ret_default(val, loc):
     return val
 
+def t_conelp_tail(tree):
+    """T5 (variant 'tail'): in conelp the main loop body becomes
+         <havoc statement>; <the statements after `lmbda[-1] *= ...`  (unscaling of s, z, tau, kappa and the gap)>;
+         __vp_tail__(locals())
+    i.e. the last statements of an iteration executed from an arbitrary scaled state.  Located by pattern:
+    the AugAssign whose target is lmbda[-1]; exactly one must exist in the loop body."""
+    hits = 0
+    for node in tree.body:
+        if isinstance(node, ast.FunctionDef) and node.name == 'conelp':
+            for loop in ast.walk(node):
+                if isinstance(loop, ast.For) and isinstance(loop.target, ast.Name) and loop.target.id == 'iters':
+                    idx = [i for i, st in enumerate(loop.body) if isinstance(st, ast.AugAssign) and isinstance(st.target, ast.Subscript)
+                           and isinstance(st.target.value, ast.Name) and st.target.value.id == 'lmbda']
+                    if len(idx) != 1: raise HarnessError('conelp: expected exactly one `lmbda[-1] *= ...` in the loop body, found %d' % len(idx))
+                    it = loop.iter
+                    loop.iter = ast.Call(func=ast.Name('__vp_iters__', ast.Load()), args=[it.args[0]], keywords=[])
+                    hv = ast.parse("tau, kappa, gap, W, dgi = __vp_havoc__('conelp-tail', locals(), ('tau', 'kappa', 'gap', 'W', 'dgi'))").body[0]
+                    tl = ast.parse("__vp_tail__(locals())").body[0]
+                    loop.body = [hv] + loop.body[idx[0] + 1:] + [tl]
+                    hits += 1
+    if hits != 1: raise HarnessError('conelp main loop not found for the tail variant')
+    return tree
+
 def t_fromfile_float(tree):
     """T4 modeling.py: inside op.fromfile every call float(...) becomes __vp_float__(...) (default:
     the builtin), so that a harness can feed symbolic numeric fields to the real MPS reader"""
@@ -149,6 +172,7 @@ def _exec_module(fullname, path, tree, inject):
     mod.__dict__['__vp_havoc__'] = _havoc_default
     mod.__dict__['__vp_ret__'] = _ret_default
     mod.__dict__['__vp_float__'] = float
+    mod.__dict__['__vp_tail__'] = lambda loc: None
     sys.modules[fullname] = mod
     exec(compile(tree, path, 'exec'), mod.__dict__)
     return mod
@@ -157,7 +181,7 @@ class World(object):
     pass
 
 def load(mode, use_c=None, transform_solvers=True, modules=('misc', 'coneprog', 'cvxprog', 'solvers', 'modeling'),
-         inject_builtins=True):
+         inject_builtins=True, conelp_tail=False):
     """Returns a World with attributes matrix, spmatrix, base, blas, lapack, misc, coneprog,
     cvxprog, solvers, modeling (those requested)."""
     W = World(); W.mode = mode
@@ -196,6 +220,8 @@ def load(mode, use_c=None, transform_solvers=True, modules=('misc', 'coneprog', 
         tree = ast.parse(read_src(name), src_path(name))
         if name == 'misc':
             tree = t_use_c(tree, use_c)
+        elif name == 'coneprog' and transform_solvers and conelp_tail:
+            tree = t_conelp_tail(tree)
         elif name == 'coneprog' and transform_solvers:
             tree = t_solver(tree, CONEPROG_SPECS)
         elif name == 'cvxprog' and transform_solvers:
